@@ -258,4 +258,166 @@ theorem bytes_roundtrip (cd : Codec) (hcd : CodecOk cd) (c : Files.Case) (d : By
     simp only at hread
     exact ⟨trivial, trivial, hread, htx⟩
 
+/-! ### text -/
+
+theorem echo_eq_cook (e : Bytes) (h : Tty.CR ∉ e) : Tty.echo false e = Tty.cook e := by
+  induction e with
+  | nil => rfl
+  | cons c e ih =>
+    have hc : (c == Tty.CR) = false := by
+      cases hh : c == Tty.CR with
+      | false => rfl
+      | true => exact absurd (by rw [eq_of_beq hh]; simp) h
+    have e1 : Tty.echo false (c :: e) = Tty.echo1 false c ++ Tty.echo false e := by simp [Tty.echo]
+    have e2 : Tty.cook (c :: e) = (if c == Tty.LF then [Tty.CR, Tty.LF] else [c]) ++ Tty.cook e := by simp [Tty.cook]
+    rw [e1, e2, ih (fun hm => h (List.mem_cons_of_mem _ hm))]
+    congr 1
+    unfold Tty.echo1
+    simp [hc]
+
+/-- what the text domain of the Spec gives the proofs -/
+structure TextFacts (c : Files.Case) (t : List Char) : Prop where
+  cr : Tty.CR ∉ enc t
+  forb : forbidden (blacklist c) (enc t) = false
+  quiet : ¬ prompt c <:+: Tty.echo false (enc t)
+  early : NoEarly (prompt c) (Tty.cook (enc t))
+
+theorem text_facts (c : Files.Case) (t : List Char) (h : textOk c t = true) : TextFacts c t := by
+  unfold textOk at h
+  simp only [Bool.and_eq_true, Bool.not_eq_true', decide_eq_true_eq] at h
+  obtain ⟨⟨⟨⟨h1, h2⟩, _⟩, _⟩, h5⟩ := h
+  have hcr : Tty.CR ∉ enc t := by simpa using h1
+  have hp := (promptOk c).ne
+  have hns : ¬ prompt c <:+: (Tty.cook (enc t) ++ prompt c).dropLast := by
+    intro ⟨x, y, hxy⟩
+    have := findSub_complete (prompt c) y x
+    rw [hxy] at this
+    unfold containsSub at h5
+    rw [this] at h5
+    cases h5
+  refine ⟨hcr, h2, ?_, ?_⟩
+  · rw [echo_eq_cook _ hcr]
+    intro hin
+    apply hns
+    rw [List.dropLast_append_of_ne_nil hp]
+    exact List.IsInfix.trans hin ⟨[], (prompt c).dropLast, by simp⟩
+  · intro k hk hle hsuf
+    apply Classical.byContradiction
+    intro hne
+    apply hns
+    have hlt : k ≤ (Tty.cook (enc t) ++ prompt c).length - 1 := by omega
+    rw [List.dropLast_eq_take]
+    have : (Tty.cook (enc t) ++ prompt c).take k
+        = ((Tty.cook (enc t) ++ prompt c).take ((Tty.cook (enc t) ++ prompt c).length - 1)).take k := by
+      rw [List.take_take, Nat.min_eq_left hlt]
+    rw [this] at hsuf
+    exact List.IsInfix.trans hsuf.isInfix (List.take_prefix _ _).isInfix
+
+theorem writeAns1_text_slow (cd : Codec) (c : Files.Case) (t : List Char) (hd : c.data = .text t)
+    (hfast : fastPath (enc t) = false) (heot : EOT ∉ enc t) :
+    writeAns1 cd c = Tty.echo false (teeLine c.path ++ [13]) ++ Tty.echo false (enc t) ++ prompt c := by
+  unfold writeAns1 writeLine writeBody
+  simp only [hd, hfast, Bool.false_eq_true, if_false]
+  unfold Remote.echoTyped
+  rw [List.filter_append, Remote.filter_eot_self _ heot, Remote.filter_eot_fin]
+  simp [Tty.CR]
+
+theorem writeAns1_text_fast (cd : Codec) (c : Files.Case) (t : List Char) (hd : c.data = .text t)
+    (hfast : fastPath (enc t) = true) :
+    writeAns1 cd c = Tty.echo false (printfLine c.path (enc t) ++ [13]) ++ prompt c := by
+  unfold writeAns1 writeLine writeBody
+  simp only [hd, hfast, if_true]
+  simp [Remote.echoTyped, Tty.echo, Tty.CR]
+
+/-- **T-text/write.**  For every well-formed case with a text `t` of the domain and EVERY
+    fragmentation `pw`: `write_text` returns the length (bytes on the `tee` path, characters on
+    the `printf` path), what it typed is a session the remote model accepts, after which the file
+    holds exactly `encode t`. -/
+theorem write_text_spec (cd : Codec) (c : Files.Case) (t : List Char) (hd : c.data = .text t) (hwf : c.wf = true)
+    (hdom : textOk c t = true) (pw : List Nat) :
+    ∃ s', runWrite cd c pw = (.ok (if fastPath (enc t) then t.length else (enc t).length), s')
+      ∧ written s' = writeTyped cd c
+      ∧ Remote.session cd (prompt c) (written s')
+          = some ⟨c.path, enc t, writeAns1 cd c, respStatus false (prompt c) 0⟩ := by
+  have hw := wf_facts c hwf
+  have ht := text_facts c t hdom
+  have heot : EOT ∉ enc t := (blTable c).eotNot _ ht.forb
+  obtain ⟨ha1, hn1⟩ := cutBy_spec (splitSizes pw (writeAns1 cd c).length).1 (writeAns1 cd c)
+  obtain ⟨ha2, hn2⟩ := cutBy_spec (splitSizes pw (writeAns1 cd c).length).2 (respStatus false (prompt c) 0)
+  cases hfast : fastPath (enc t) with
+  | false =>
+    have hans := writeAns1_text_slow cd c t hd hfast heot
+    obtain ⟨s', hrun, htx⟩ := writeText_slow_ok c.path t _ _ (ss_init c hw.chunk) (blTable c) (promptOk c) hfast hw.forb
+      ht.forb ht.quiet (ha1.trans hans) hn1 ha2 hn2
+    have htyped : written s' = writeTyped cd c := by
+      rw [htx]
+      unfold writeTyped writeLine writeBody
+      simp [hd, hfast, Tty.CR, List.append_assoc]
+    refine ⟨s', ?_, htyped, ?_⟩
+    · unfold runWrite
+      simp only [hd, Bool.false_eq_true, if_false]
+      exact hrun
+    · rw [htyped]
+      unfold writeTyped writeLine writeBody
+      simp only [hd, hfast, Bool.false_eq_true, if_false]
+      have := Remote.session_tee cd (prompt c) (teeLine c.path) c.path false (enc t)
+        (cr_teeLine _ hw.cr) (Remote.printfCmd_teeLine _) (Remote.teeCmd_teeLine _) heot
+      simp only [List.append_assoc] at this ⊢
+      rw [this]
+      simp only [Bool.false_eq_true, if_false, Option.some.injEq, Remote.Outcome.mk.injEq, true_and]
+      refine ⟨Remote.input_id _ ht.cr, ?_, trivial⟩
+      rw [hans]; simp [Tty.CR, List.append_assoc]
+  | true =>
+    have hans := writeAns1_text_fast cd c t hd hfast
+    obtain ⟨s', hrun, htx⟩ := writeText_fast_ok c.path t _ _ (ss_init c hw.chunk) (blTable c) (promptOk c) hfast hw.forb
+      ht.forb (ha1.trans hans) hn1 ha2 hn2
+    have htyped : written s' = writeTyped cd c := by
+      rw [htx]
+      unfold writeTyped writeLine writeBody
+      simp [hd, hfast, Tty.CR, List.append_assoc]
+    refine ⟨s', ?_, htyped, ?_⟩
+    · unfold runWrite
+      simp only [hd, if_true]
+      exact hrun
+    · rw [htyped]
+      unfold writeTyped writeLine writeBody
+      simp only [hd, hfast, if_true, List.append_nil]
+      have := Remote.session_printf cd (prompt c) c.path (enc t) (cr_printfLine _ _ hw.cr ht.cr)
+      rw [this, hans]
+      simp [Tty.CR]
+
+/-- **T-text/read.**  `read_text` of a file holding `encode t`, `t` in the domain, under EVERY
+    fragmentation: returns `t`. -/
+theorem read_text_spec (cd : Codec) (c : Files.Case) (t : List Char) (hd : c.data = .text t) (hwf : c.wf = true)
+    (hdom : textOk c t = true) (pr : List Nat) : (runRead cd c (enc t) pr).1 = .text t := by
+  have hw := wf_facts c hwf
+  have ht := text_facts c t hdom
+  obtain ⟨ha1, hn1⟩ := cutBy_spec (splitSizes pr (respCmd false (prompt c) (catLine c.path) (enc t)).length).1
+    (respCmd false (prompt c) (catLine c.path) (enc t))
+  obtain ⟨ha2, hn2⟩ := cutBy_spec (splitSizes pr (respCmd false (prompt c) (catLine c.path) (enc t)).length).2
+    (respStatus false (prompt c) 0)
+  obtain ⟨s', hrun⟩ := readText_ok c.path (enc t) _ _ (ss_init c hw.chunk) (blTable c) (promptOk c) hw.forb ht.early
+    ha1 hn1 ha2 hn2
+  unfold runRead
+  simp only [hd, hrun, valOfRes]
+  rw [text_cook_enc t (cr_char_of_enc t ht.cr)]
+
+/-- **T-text.**  `write_text t` followed by `read_text`, `t` in the domain (incl. `""`, no final
+    newline, only newlines, multi-line non-ASCII), under every fragmentation of both
+    conversations: the file holds `encode t`, the read returns `t`. -/
+theorem text_roundtrip (cd : Codec) (c : Files.Case) (t : List Char) (hd : c.data = .text t) (hwf : c.wf = true)
+    (hdom : textOk c t = true) (pw pr : List Nat) :
+    (Files.run cd c pw pr).ret = .n (if fastPath (enc t) then t.length else (enc t).length)
+      ∧ (Files.run cd c pw pr).file = some (enc t) ∧ (Files.run cd c pw pr).back = .text t
+      ∧ (Files.run cd c pw pr).txW = writeTyped cd c := by
+  obtain ⟨s', hrun, htx, hsess⟩ := write_text_spec cd c t hd hwf hdom pw
+  have hread := read_text_spec cd c t hd hwf hdom pr
+  unfold Files.run
+  simp only [hrun, hsess, valOfRes]
+  cases hr : runRead cd c (enc t) pr with
+  | mk rr sr =>
+    rw [hr] at hread
+    simp only at hread
+    exact ⟨trivial, trivial, hread, htx⟩
+
 end C11
